@@ -24,10 +24,12 @@ META = dict(
 )
 
 
-def _wind_da(x, lead):
+def _wind_da(x, lead, like=None):
+    """wind / depth along the leading dimension, on the spectrum's own coordinate of that dimension."""
     if not lead:
         return x
-    return xr.DataArray(np.array(x, dtype=object if any(isinstance(v, Sym) for v in x) else float), dims=[n for n, _ in lead], coords={n: np.arange(k) for n, k in lead})
+    coords = {n: (like[n].values if like is not None and n in like.coords else np.arange(k)) for n, k in lead}
+    return xr.DataArray(np.array(x, dtype=object if any(isinstance(v, Sym) for v in x) else float), dims=[n for n, _ in lead], coords=coords)
 
 
 @harness(P, quick=grid(g=["G1", "G2"], wdir=[0.0, 47.0], dpt=[15.0], agefac=[1.7, 1.0], lead=[()]) + grid(g=["G2"], wdir=[125.0], dpt=[40.0], agefac=[1.0, 2.0], lead=[()]) + grid(g=["G3"], wdir=[180.0], dpt=[300.0], agefac=[2.0], lead=[(("site", 2),)]),
@@ -39,9 +41,9 @@ def ptm4(env, g, wdir, dpt, agefac, lead):
     f, d = da.freq.values, da.dir.values
     n = lead[0][1] if lead else 1
     ws = [env.real("wspd_%d" % p, lo=0.0, hi=60.0) for p in range(n)]
-    wspd = _wind_da(ws, lead) if lead else ws[0]
-    wd = _wind_da([wdir] * n, lead) if lead else wdir
-    dp = _wind_da([dpt] * n, lead) if lead else dpt
+    wspd = _wind_da(ws, lead, da) if lead else ws[0]
+    wd = _wind_da([wdir] * n, lead, da) if lead else wdir
+    dp = _wind_da([dpt] * n, lead, da) if lead else dpt
     out = da.spec.partition.ptm4(wspd, wd, dp, agefac=agefac)
     env.claim(out.sizes["part"] == 2, "two partitions (wind sea, swell)")
     out = out.transpose("part", *da.dims)
